@@ -146,6 +146,9 @@ func newSemVerType3(limits px.List) *SemVerType {
 			if err != nil {
 				panic(illegalArgument(`SemVer[]`, idx, err.Error()))
 			}
+			if rng == nil {
+				panic(illegalArgument(`SemVer[]`, idx, `empty version range`))
+			}
 		} else {
 			rv, ok := arg.(*SemVerRange)
 			if !ok {
